@@ -108,6 +108,13 @@ class Ctx:
         return sorted({bb for (g, bb, line, kind) in self.prog.field_writes(adt, field, fns=[f]) if kind in kinds})
 
     # ------------------------------------------------------------------ K6 guards
+    @staticmethod
+    def edge(c, arm):
+        """the CFG edge of condition c taken on `arm`; label-exact for enum switches (several values may share a target)"""
+        if c.kind == 'variant':
+            return (c.bb, c.arms[arm], arm)
+        return (c.bb, c.arms[arm])
+
     def find_conds(self, f, matcher):
         out = []
         for c in conds(f, self.S):
@@ -131,7 +138,7 @@ class Ctx:
         for am in assume:
             for (c, arm) in self.find_conds(f, am):
                 if arm in c.arms:
-                    assumed.append((c.bb, c.arms[arm]))
+                    assumed.append(self.edge(c, arm))
         ok = False
         used = None
         for (c, arm) in cands:
@@ -139,9 +146,9 @@ class Ctx:
                 continue
             tb = c.arms[arm]
             others = [t2 for a2, t2 in c.arms.items() if a2 != arm]
-            if all(t2 == tb for t2 in others):
+            if all(t2 == tb for t2 in others) and c.kind != 'variant':
                 continue
-            r = f.reach([0], removed=[(c.bb, tb)] + assumed, blocked=blocked)
+            r = f.reach([0], removed=[self.edge(c, arm)] + assumed, blocked=blocked)
             if not (set(live) & r):
                 ok = True
                 used = c
@@ -166,14 +173,14 @@ class Ctx:
         for am in assume:
             for (c, arm) in self.find_conds(f, am):
                 if arm in c.arms:
-                    removed.append((c.bb, c.arms[arm]))
+                    removed.append(self.edge(c, arm))
         nc = []
         for m in matchers:
             cs = self.find_conds(f, m)
             nc.append(len(cs))
             for (c, arm) in cs:
                 if arm in c.arms:
-                    removed.append((c.bb, c.arms[arm]))
+                    removed.append(self.edge(c, arm))
         r = f.reach([0], removed=removed, blocked=blocked)
         ok = all(n > 0 for n in nc) and not (set(live) & r)
         self.rep.need(rule, key, ok, 'disjunctive guard "%s" must dominate %d effect site(s) in %s; candidates per disjunct: %s' % (what, len(live), f.id, nc),
